@@ -557,60 +557,135 @@ func c11Key(ops []c11Op, hist []int, sess []*c11Sess, npending int) string {
 
 func c11Stateless(env *verifx.Env, res *verifx.Result, t *testing.T) {
 	cases := env.NewCases(res, "stateless-endpoint")
-	for _, method := range []string{"POST", "GET", "DELETE", "PUT", "POST-initialize"} {
+	type cfg struct {
+		store, jsonResp bool
+		version         string
+	}
+	var cfgs []cfg
+	for _, store := range []bool{false, true} {
+		for _, jsonResp := range []bool{false, true} {
+			for _, version := range []string{"2025-06-18", "2025-11-25", "2025-03-26"} {
+				cfgs = append(cfgs, cfg{store, jsonResp, version})
+			}
+		}
+	}
+	for _, method0 := range []string{"POST", "GET", "DELETE", "PUT", "POST-initialize"} {
 		for _, sid := range []string{"", "abc", "VSID0001"} {
-			idx, mine := cases.Next()
-			if !mine {
-				continue
+			for _, cf := range cfgs {
+				method := method0
+				idx, mine := cases.Next()
+				if !mine {
+					continue
+				}
+				s := NewServer(&Implementation{Name: "srv", Version: "1"}, &ServerOptions{Logger: quietLogger})
+				ran := 0
+				seenID := ""
+				AddTool(s, &Tool{Name: "t"}, func(ctx context.Context, r *CallToolRequest, in map[string]any) (*CallToolResult, any, error) {
+					ran++
+					seenID = r.Session.ID()
+					return &CallToolResult{}, nil, nil
+				})
+				hopts := &StreamableHTTPOptions{Stateless: true, Logger: quietLogger, JSONResponse: cf.jsonResp}
+				if cf.store {
+					hopts.EventStore = NewMemoryEventStore(nil)
+				}
+				h := NewStreamableHTTPHandler(func(*http.Request) *Server { return s }, hopts)
+				var body io.Reader
+				if method == "POST" || method == "PUT" {
+					body = strings.NewReader(`{"jsonrpc":"2.0","id":1,"method":"tools/call","params":{"name":"t","arguments":{}}}`)
+				}
+				initialize := method == "POST-initialize"
+				if initialize {
+					method = "POST"
+					body = strings.NewReader(`{"jsonrpc":"2.0","id":1,"method":"initialize","params":{"protocolVersion":"` + cf.version + `","capabilities":{},"clientInfo":{"name":"c","version":"1"}}}`)
+				}
+				r := httptest.NewRequest(method, "http://example.test/mcp", body)
+				r.Header.Set("Accept", "application/json, text/event-stream")
+				r.Header.Set("Content-Type", "application/json")
+				r.Header.Set("Mcp-Protocol-Version", cf.version)
+				if sid != "" {
+					r.Header.Set("Mcp-Session-Id", sid)
+				}
+				w := httptest.NewRecorder()
+				h.ServeHTTP(w, r)
+				desc := fmt.Sprintf("%s sid=%q event-store=%v json-responses=%v version=%s", method, sid, cf.store, cf.jsonResp, cf.version)
+				if initialize {
+					desc = "POST initialize " + strings.TrimPrefix(desc, "POST ")
+				}
+				switch {
+				case w.Header().Get("Mcp-Session-Id") != "":
+					cases.Violate(idx, "c11 stateless-issues-session-id", fmt.Sprintf("%s: response carries Mcp-Session-Id %q", desc, w.Header().Get("Mcp-Session-Id")), 1)
+				case seenID != "":
+					cases.Violate(idx, "c11 stateless-honours-session-id", fmt.Sprintf("%s: the handler's session reports the id %q", desc, seenID), 1)
+				case initialize && w.Code != 200:
+					cases.Violate(idx, "c11 stateless-post-rejected", fmt.Sprintf("%s: initialize answered %d", desc, w.Code), 1)
+				case initialize:
+					cases.Record(idx, fmt.Sprintf("initialize-%d", w.Code), 1, func() string { return desc })
+				case method == "POST" && (w.Code != 200 || ran != 1):
+					cases.Violate(idx, "c11 stateless-post-rejected", fmt.Sprintf("%s: status %d, tool ran %d times (a session id must be ignored, not honoured or rejected)", desc, w.Code, ran), 1)
+				case method != "POST" && w.Code != 405:
+					cases.Violate(idx, fmt.Sprintf("c11 stateless-%s-not-405", method), fmt.Sprintf("%s: status %d, want 405", desc, w.Code), 1)
+				case len(slices.Collect(s.Sessions())) != 0:
+					cases.Violate(idx, "c11 stateless-session-left", desc+": a server session is left behind", 1)
+				default:
+					cases.Record(idx, fmt.Sprintf("%s-%d", method, w.Code), 1, func() string { return desc })
+				}
 			}
-			s := NewServer(&Implementation{Name: "srv", Version: "1"}, &ServerOptions{Logger: quietLogger})
-			ran := 0
-			seenID := ""
-			AddTool(s, &Tool{Name: "t"}, func(ctx context.Context, r *CallToolRequest, in map[string]any) (*CallToolResult, any, error) {
-				ran++
-				seenID = r.Session.ID()
-				return &CallToolResult{}, nil, nil
-			})
-			h := NewStreamableHTTPHandler(func(*http.Request) *Server { return s }, &StreamableHTTPOptions{Stateless: true, Logger: quietLogger})
-			var body io.Reader
-			if method == "POST" || method == "PUT" {
-				body = strings.NewReader(`{"jsonrpc":"2.0","id":1,"method":"tools/call","params":{"name":"t","arguments":{}}}`)
-			}
-			initialize := method == "POST-initialize"
-			if initialize {
-				method = "POST"
-				body = strings.NewReader(`{"jsonrpc":"2.0","id":1,"method":"initialize","params":{"protocolVersion":"2025-06-18","capabilities":{},"clientInfo":{"name":"c","version":"1"}}}`)
-			}
-			r := httptest.NewRequest(method, "http://example.test/mcp", body)
-			r.Header.Set("Accept", "application/json, text/event-stream")
-			r.Header.Set("Content-Type", "application/json")
-			r.Header.Set("Mcp-Protocol-Version", "2025-06-18")
-			if sid != "" {
-				r.Header.Set("Mcp-Session-Id", sid)
-			}
-			w := httptest.NewRecorder()
-			h.ServeHTTP(w, r)
-			desc := fmt.Sprintf("%s sid=%q", method, sid)
-			if initialize {
-				desc = fmt.Sprintf("POST initialize sid=%q", sid)
-			}
-			switch {
-			case w.Header().Get("Mcp-Session-Id") != "":
-				cases.Violate(idx, "c11 stateless-issues-session-id", fmt.Sprintf("%s: response carries Mcp-Session-Id %q", desc, w.Header().Get("Mcp-Session-Id")), 1)
-			case seenID != "":
-				cases.Violate(idx, "c11 stateless-honours-session-id", fmt.Sprintf("%s: the handler's session reports the id %q", desc, seenID), 1)
-			case initialize && w.Code != 200:
-				cases.Violate(idx, "c11 stateless-post-rejected", fmt.Sprintf("%s: initialize answered %d", desc, w.Code), 1)
-			case initialize:
-				cases.Record(idx, fmt.Sprintf("initialize-%d", w.Code), 1, func() string { return desc })
-			case method == "POST" && (w.Code != 200 || ran != 1):
-				cases.Violate(idx, "c11 stateless-post-rejected", fmt.Sprintf("%s: status %d, tool ran %d times (a session id must be ignored, not honoured or rejected)", desc, w.Code, ran), 1)
-			case method != "POST" && w.Code != 405:
-				cases.Violate(idx, fmt.Sprintf("c11 stateless-%s-not-405", method), fmt.Sprintf("%s: status %d, want 405", desc, w.Code), 1)
-			case len(slices.Collect(s.Sessions())) != 0:
-				cases.Violate(idx, "c11 stateless-session-left", desc+": a server session is left behind", 1)
-			default:
-				cases.Record(idx, fmt.Sprintf("%s-%d", method, w.Code), 1, func() string { return desc })
+		}
+	}
+	// the SDK's own client on a stateless endpoint (both protocol generations, with and without an event
+	// store and JSON responses): the session it gets has no id, and a call works
+	for _, store := range []bool{false, true} {
+		for _, jsonResp := range []bool{false, true} {
+			for _, version := range []string{"2025-06-18", "2026-07-28"} {
+				idx, mine := cases.Next()
+				if !mine {
+					continue
+				}
+				desc := fmt.Sprintf("SDK client, event-store=%v json-responses=%v version=%s", store, jsonResp, version)
+				var id string
+				var issued []string
+				var callErr error
+				func() {
+					defer func() {
+						if r := recover(); r != nil {
+							callErr = fmt.Errorf("panic or leak: %v", r)
+						}
+					}()
+					synctest.Test(t, func(t *testing.T) {
+						s := NewServer(&Implementation{Name: "srv", Version: "1"}, &ServerOptions{Logger: quietLogger})
+						AddTool(s, &Tool{Name: "t"}, func(ctx context.Context, r *CallToolRequest, in map[string]any) (*CallToolResult, any, error) {
+							return &CallToolResult{}, nil, nil
+						})
+						hopts := &StreamableHTTPOptions{Stateless: true, Logger: quietLogger, JSONResponse: jsonResp}
+						if store {
+							hopts.EventStore = NewMemoryEventStore(nil)
+						}
+						hx := &hxTransport{Handler: NewStreamableHTTPHandler(func(*http.Request) *Server { return s }, hopts)}
+						cs, err := NewClient(&Implementation{Name: "cli", Version: "1"}, &ClientOptions{Logger: quietLogger}).Connect(context.Background(),
+							&StreamableClientTransport{Endpoint: "http://example.test/mcp", HTTPClient: hx.client(), MaxRetries: -1}, &ClientSessionOptions{ProtocolVersion: version})
+						if err != nil {
+							callErr = err
+							return
+						}
+						_, callErr = cs.CallTool(context.Background(), &CallToolParams{Name: "t", Arguments: map[string]any{}})
+						id = cs.ID()
+						for _, x := range hx.exchanges() {
+							if v := x.RespHdr.Get("Mcp-Session-Id"); v != "" {
+								issued = append(issued, v)
+							}
+						}
+						cs.Close()
+					})
+				}()
+				switch {
+				case callErr != nil:
+					cases.Violate(idx, "c11 stateless-client-fails", fmt.Sprintf("%s: %v", desc, callErr), 2)
+				case id != "" || len(issued) > 0:
+					cases.Violate(idx, "c11 stateless-issues-session-id", fmt.Sprintf("%s: ClientSession.ID() = %q, Mcp-Session-Id response headers %v", desc, id, issued), 2)
+				default:
+					cases.Record(idx, "sdk-client-no-id", 2, func() string { return desc })
+				}
 			}
 		}
 	}
